@@ -229,6 +229,11 @@ class World:
             return self.builtins[name]
         if name in self.builtin_classes:
             return self.builtin_classes[name]
+        import builtins as _b
+        if hasattr(_b, name):
+            # a builtin of the host language the engine has no model for: the unit leaves the subset (undecided) --
+            # claiming a NameError here would be a false alarm on a harmless rewrite
+            raise OutOfSubset(f"host builtin `{name}` is not modelled")
         interp.throw("NameError", f"name '{name}' is not defined", node)
 
     def set_global(self, interp, module, name, v):
@@ -602,6 +607,28 @@ class World:
             if isinstance(a[0], PList) and a[0].is_sym():
                 return PList(sym=a[0].sym, kind=a[0].kind)
             return PList(list(it.iterate(a[0], n)))
+
+        @reg("iter")
+        def _iter(it, a, k, n):
+            # an iterator over a concrete spine: a one-shot cursor (a list iterator sees later appends, as in CPython)
+            src = a[0]
+            if isinstance(src, IterVal):
+                return src
+            if isinstance(src, PList) and not src.is_sym():
+                return IterVal(src, None)
+            return IterVal(None, list(it.iterate(src, n)))
+
+        @reg("next")
+        def _next(it, a, k, n):
+            iv = a[0]
+            if not isinstance(iv, IterVal):
+                it.guard(False, "TypeError", n, "object is not an iterator")
+            r = iv.step()
+            if r is IterVal.DONE:
+                if len(a) > 1:
+                    return a[1]
+                it.throw("StopIteration", "", n)
+            return r
 
         @reg("tuple")
         def _tuple(it, a, k, n):
@@ -1298,9 +1325,11 @@ class World:
                     it.throw("ValueError", "math domain error", n)
                 return it.fresh_float("mpow")
             return Builtin("math.pow", f)
-        if name in ("pi", "e"):
+        if name in ("pi", "e", "tau"):
             import math
             return getattr(math, name)
+        if name in ("inf", "nan"):
+            raise OutOfSubset(f"math.{name}: infinities and NaN are outside the real-number model of floats")
         # transcendental functions: result opaque; domain errors possible
         def f(it, a, k, n, name=name):
             for v in a:
@@ -1359,6 +1388,29 @@ _MISSING = object()
 World.MISSING = _MISSING
 _OPERATOR = {"add": ast.Add, "sub": ast.Sub, "mul": ast.Mult, "truediv": ast.Div, "floordiv": ast.FloorDiv, "mod": ast.Mod,
              "pow": ast.Pow, "and_": ast.BitAnd, "or_": ast.BitOr, "xor": ast.BitXor, "lshift": ast.LShift, "rshift": ast.RShift}
+
+
+class IterVal:
+    """host iterator over a concrete spine (iter()/next())"""
+    DONE = object()
+
+    def __init__(self, live, items):
+        self.live, self.items, self.i = live, items, 0
+
+    def step(self):
+        seq = self.live.items if self.live is not None else self.items
+        if seq is None or self.i >= len(seq):
+            return IterVal.DONE
+        self.i += 1
+        return seq[self.i - 1]
+
+    def rest(self):
+        out = []
+        while True:
+            r = self.step()
+            if r is IterVal.DONE:
+                return out
+            out.append(r)
 
 
 class BytesVal:
